@@ -108,6 +108,14 @@ def _r1_handshake(run, st, work_queues):
                 return False
         return True
 
+    # the feeder join is only a flush if nobody cancelled it: queue.cancel_join_thread() turns join_thread() into a no-op
+    # (documented: "data in the queue may be lost"), whenever it is called
+    cancels = [(n, c) for n, c in common.method_calls_on(cfg, set(work_queues), "cancel_join_thread")]
+    if cancels:
+        run.violated("C03.R1", f, cancels[0][1], "%s calls %s.cancel_join_thread(): the later join_thread() no longer waits for the feeder thread, so the done flag can be "
+                     "raised while items are still in the feeder's buffer; idle workers then leave and those items are never processed"
+                     % (st.name, sorted(work_queues)[0]), kind="flush-cancelled", **facts)
+        return
     ok_c = must_pass("closing the work queue", closes, "no-close")
     ok_f = must_pass("joining the queue feeder thread (join_thread)", flushes, "no-join-thread")
     ok_s = must_pass("setting the done flag", sets, "no-set")
